@@ -271,6 +271,47 @@ for _k in ["Molecule", "Structure", "ConformerEnsemble"]:
            functions=[f"{M.CLS['Promolecule']}.__getstate__", f"{M.CLS['Promolecule']}.__setstate__"])(deepcopy_unit(_k))
 
 
+@P.unit(f"{M.CLS['Conformer']}.__init__" if "Conformer" in M.CLS else "molli.chem.ensemble:Conformer.__init__",
+        name="pickle / deepcopy of a Conformer (a view of one row of an ensemble): an equal conformer that shares nothing with the source ensemble",
+        functions=["molli.chem.ensemble:Conformer.__getstate__", "molli.chem.ensemble:Conformer.__setstate__"])
+def _conformer_copy(V):
+    I, st = V.I, V.st
+    ens = source(V, "ConformerEnsemble")
+    i = V.choose([0, 1], "conformer")
+    c = I.getitem(ens, i)
+    V.witness(lambda ev: {"op": "conformer-copy", "signature": "conformer-copy"})
+    V.cover()
+    I.target = "molli.chem.ensemble:Conformer.__getstate__"
+    try:
+        res = pickle_rt(I, c)
+    except PyExc as ex:
+        V.ensure("conformer/pickle-round-trips", z3.BoolVal(False), raised=repr(getattr(ex.value, "fields", "")))
+        return
+    V.ensure("conformer/pickle-round-trips", z3.BoolVal(isinstance(res, Obj) and res.cls is c.cls and res is not c))
+    if not (isinstance(res, Obj) and res.cls is c.cls):
+        return
+    try:
+        rc, rq = I.getattr_(res, "coords"), I.getattr_(res, "atomic_charges")
+        ra, rb = I.getattr_(res, "atoms"), I.getattr_(res, "bonds")
+        rn = I.getattr_(res, "name")
+    except PyExc:
+        V.ensure("conformer/accessors-of-the-copy-work", z3.BoolVal(False))
+        return
+    V.ensure("conformer/accessors-of-the-copy-work", z3.BoolVal(True))
+    sc, sq = I.getattr_(c, "coords"), I.getattr_(c, "atomic_charges")
+    V.ensure("conformer/same-coordinates-and-charges", I.and_(tuple(rc.tail) == tuple(sc.tail), *[M._same(I, x, y) for x, y in zip(NP.flat(rc.data), NP.flat(sc.data))],
+                                                              *[M._same(I, x, y) for x, y in zip(NP.flat(rq.data), NP.flat(sq.data))]))
+    sa = ens.fields["_atoms"].items
+    ral = ra.items if isinstance(ra, ListV) else list(I.iterate(ra))
+    V.ensure("conformer/same-atoms-by-value-not-by-identity", I.and_(len(ral) == len(sa), *[I.eq(x.fields["element"], y.fields["element"]) for x, y in zip(sa, ral)],
+                                                                      z3.BoolVal(all(x is not y for x, y in zip(sa, ral)))))
+    V.ensure("conformer/same-name", I.eq(rn, ens.fields["_name"]))
+    par = res.fields.get("_parent")
+    V.ensure("conformer/copy-belongs-to-its-own-ensemble", z3.BoolVal(isinstance(par, Obj) and par is not ens))
+    if isinstance(par, Obj) and par is not ens:
+        independent(V, [ens], par, "conformer")
+
+
 @P.unit(f"{M.ATOM}.evolve", name="Atom.evolve / Bond.evolve", functions=[f"{M.ATOM}.evolve", f"{M.BOND}.evolve"])
 def _evolve(V):
     I, st = V.I, V.st
